@@ -104,6 +104,8 @@ def mk_symbolic(ip: Interp, sortname: str, hint: str):
     sortname = sortname.strip()
     if sortname == 'None':
         return None
+    if sortname == 'any':
+        return Opaque('any', p.fresh(hint, z3.IntSort()))
     if sortname == 'arrstr':
         arr = p.fresh(hint + '_chars', z3.ArraySort(z3.IntSort(), z3.IntSort()))
         n = p.fresh(hint + '_len', z3.IntSort())
@@ -396,8 +398,10 @@ def _run_path(ip: Interp, c: Contract, fn: ast.FunctionDef, cls):
         wf_assume(ip, env[name], sortname)
     for clause in c.requires:
         p.assume(spec_eval_env(ip, clause, env))
+    ip._param_mutable = {}
     for name in c.sig:
         env[f'old_{name}'] = snapshot(env[name])
+        ip._param_mutable[name] = isinstance(env[name], (PRec, ZRec))
     try:
         ip.block(fn.body)
         result = None
@@ -409,6 +413,10 @@ def _run_path(ip: Interp, c: Contract, fn: ast.FunctionDef, cls):
     p.returns = getattr(p, 'returns', 0) + 1
     # normal exit
     penv = {k: v for k, v in env.items()}
+    # parameters of immutable sorts denote their values on entry (locals may have been reassigned)
+    for name, was_mutable in getattr(ip, '_param_mutable', {}).items():
+        if not was_mutable:
+            penv[name] = env[f'old_{name}']
     try:
         penv['result'] = _coerce_result(ip, result, c.ret, fn)
     except OutOfSubset:
@@ -429,6 +437,8 @@ def _coerce_result(ip: Interp, result, ret: str, fn):
         return result
     if ret.startswith('tuple['):
         return result
+    if isinstance(result, ZRec) and ret == 'Val':
+        return ip.to_val(result, fn)
     if isinstance(result, (PRec, ZRec, ArrList, ArrStr, PyTuple, Opaque)):
         return result
     srt = S.sort_of(ret)
@@ -440,6 +450,9 @@ def _coerce_result(ip: Interp, result, ret: str, fn):
 def _exceptional_exit(ip: Interp, c: Contract, exc: ExcV, fn):
     p = ip.p
     env = dict(ip.env)
+    for name, was_mutable in getattr(ip, '_param_mutable', {}).items():
+        if not was_mutable:
+            env[name] = env[f'old_{name}']
     env['exc'] = exc
     if exc.origin and exc.origin.endswith(':other') and c.propagates:
         # an exception of user code passing through unchanged: allowed
